@@ -10,7 +10,7 @@ import collections
 from mc.ctx import HarnessError, jsonable, stable_hash
 
 
-def bfs(ctx, mod, inits, ops, depth, run_history, diff_continuation=True, max_states=None):
+def bfs(ctx, mod, inits, ops, depth, run_history, diff_continuation=True, max_states=None, prefix=()):
     """run_history(case, ctx) -> canonical key of the final state (or None if the history broke).
 
     `case` = {"init": init, "ops": [...]}; run_history replays the whole history on fresh
@@ -24,7 +24,7 @@ def bfs(ctx, mod, inits, ops, depth, run_history, diff_continuation=True, max_st
 
     def run(init, hist):
         res = [None]
-        case = {"init": init, "ops": list(hist)}
+        case = {"init": init, "ops": list(prefix) + list(hist)}
         ctx.run_case(mod, case, fn=lambda c, cx: res.__setitem__(0, run_history(c, cx)))
         return res[0]
 
